@@ -33,6 +33,8 @@ def poisons():
         ("raising-getstate", lambda: U.RaisesGetstate()),
         ("dok-sparse", lambda: sp.dok_matrix(np.eye(2))),
         ("lil-sparse", lambda: sp.lil_matrix(np.eye(2))),
+        ("complex-number", lambda: 1 + 2j),
+        ("slots-without-getstate", lambda: U.SlotsNoDict(1)),
         ("dok-array-empty", lambda: sp.dok_array((1, 1))),
         ("dok-array", lambda: sp.dok_array(np.eye(2))),
         ("0d-object-array", lambda: np.array(U.Plain(1, 2), dtype=object)),
